@@ -102,7 +102,10 @@ def run(names, tier, props_override=None):
             continue
         mpath = os.path.join(d, "meta.json")
         meta = json.load(open(mpath))
-        props = props_override or [meta["property"]]
+        props = props_override or ([meta["property"]] + list(meta.get("caught_by", [])))
+        if meta.get("not_judged") and not props_override:
+            print(f"{name:12s} not judged: {meta['not_judged'][:120]}")
+            continue
         wt = worktree()
         try:
             ap = sh(["git", "-C", wt, "apply", os.path.join(d, "patch.diff")])
@@ -118,7 +121,7 @@ def run(names, tier, props_override=None):
                 keys = [ln.split("violated:")[1].strip()[:150] for ln in r.stdout.splitlines() if "violated:" in ln]
                 print(f"{name:12s} {prop} {tier:8s} {'CAUGHT' if caught else 'MISSED rc=%d' % r.returncode} {keys[:1]}")
                 meta.setdefault("checks", {})[f"{prop}/{tier}"] = {"caught": caught, "rc": r.returncode, "keys": keys[:3]}
-                if not caught:
+                if not caught and not (prop == meta["property"] and meta.get("caught_by") and not props_override):
                     rc = 1
                     print("    " + "\n    ".join(r.stdout.strip().splitlines()[-6:]))
             shutil.rmtree(tmp, ignore_errors=True)
